@@ -139,6 +139,54 @@ func H_C01_LineStep() {
 	vrt.Assert(l.Total.Value() == total, "line-total-is-sum-minus-discounts-plus-charges")
 }
 
+// H_C01_SubLineStep: calculateSubLine on one breakdown row (price, quantity, optional percentage discount and
+// percentage charge): discount and charge are each the rounded percentage of the row's sum - never of the running
+// total - and the row's total is sum - discount + charge, all at the row's working precision.
+func H_C01_SubLineStep() {
+	rule := skRule("rule")
+	cur := skCurrency()
+	ce := cur.Def().Subunits
+	pexp := ce + 2*uint32(vrt.Choice("pexp", 2)) // currency, +2 decimals
+	qexp := uint32(vrt.Choice("qexp", 2))         // 0..1 decimals
+	price := skAmt("price", pexp)
+	qty := skAmt("qty", qexp)
+	sl := &SubLine{Quantity: qty, Item: &org.Item{Name: "x", Price: &price}}
+	hasDisc := vrt.Choice("disc", 2) == 1
+	hasCharge := vrt.Choice("charge", 2) == 1
+	if hasDisc {
+		p := skP10 // 5.5 %
+		sl.Discounts = []*LineDiscount{{Percent: &p}}
+	}
+	if hasCharge {
+		p := skP5
+		sl.Charges = []*LineCharge{{Percent: &p}}
+	}
+	err := calculateSubLine(sl, cur, nil, rule)
+	vrt.Assert(err == nil && sl.Sum != nil && sl.Total != nil, "sub-line-calculates")
+	if err != nil || sl.Sum == nil || sl.Total == nil {
+		return
+	}
+	w := ce
+	if rule == tax.RoundingRulePrecise {
+		w = c01Max(pexp, ce+2)
+	}
+	vrt.Assert(vrt.And(sl.Sum.Exp() == w, sl.Total.Exp() == w), "sub-line-figures-at-working-precision")
+	total := sl.Sum.Value()
+	if hasDisc {
+		d := sl.Discounts[0]
+		vrt.Assert(d.Amount.Exp() == w, "sub-line-discount-at-working-precision")
+		vrt.Assert(d.Amount.Value() == c01RHA(sl.Sum.Value()*55, 1000), "sub-line-discount-is-percentage-of-sum")
+		total -= d.Amount.Value()
+	}
+	if hasCharge {
+		c := sl.Charges[0]
+		vrt.Assert(c.Amount.Exp() == w, "sub-line-charge-at-working-precision")
+		vrt.Assert(c.Amount.Value() == c01RHA(sl.Sum.Value()*50, 1000), "sub-line-charge-is-percentage-of-sum-not-of-the-running-total")
+		total += c.Amount.Value()
+	}
+	vrt.Assert(sl.Total.Value() == total, "sub-line-total-is-sum-minus-discount-plus-charge")
+}
+
 // H_C01_DocumentStep: document discounts / charges on the line sum, advances and due dates on the totals.
 func H_C01_DocumentStep() {
 	rule := skRule("rule")
